@@ -160,6 +160,8 @@ func c15Check(c c15Case, rec *evid.Recorder) *Fail {
 				if rest == "" || (rest[0] != '"' && rest[0] != '\'') {
 					return failf("[%s] comment #%d# stood before string %s but precedes %q in the formatted output\nformatted %q", cfg, cm.Marker, cm.Next, trunc(rest, 30), out)
 				}
+			} else if cm.Next[0] >= '0' && cm.Next[0] <= '9' && len(rest) > 0 && rest[0] >= '0' && rest[0] <= '9' {
+				// a numeric literal may be printed in another spelling of the same number
 			} else if !strings.HasPrefix(rest, cm.Next) {
 				return failf("[%s] comment #%d# stood before %q but precedes %q in the formatted output\nformatted %q\nsrc %q", cfg, cm.Marker, cm.Next, trunc(rest, 30), out, c.Src)
 			}
